@@ -52,6 +52,12 @@ func c16BuilderSub(m Mode, src string, recs *[]c16Rec, sub bool) *parser.Builder
 			pb.Build("function q ( ) { { z ; } if ( a ) { b ; } }").ParseProgram()
 			inSub = false
 		}
+		if c16PushPop {
+			// a plugin construct that is function-like but has no brace body of its own (an expression-bodied
+			// arrow, say) enters and leaves a function context around it; balanced, so nothing may remain
+			p.PushContext(parser.FunctionContext)
+			p.PopContext()
+		}
 		t := p.CurrentToken
 		*recs = append(*recs, c16Rec{'s', ref.OffsetOf(src, t.Start.Line, t.Start.Column), p.IsInFunction(), p.CurrentContext(), t.Literal})
 		if c16Direct && t.Type == token.LBRACE {
@@ -62,6 +68,12 @@ func c16BuilderSub(m Mode, src string, recs *[]c16Rec, sub bool) *parser.Builder
 	pb.UseExpressionInterceptor(func(p *parser.Parser, next func() ast.Expression) ast.Expression {
 		if inSub {
 			return next()
+		}
+		if c16PushPop {
+			p.PushContext(parser.BlockContext)
+			p.PushContext(parser.FunctionContext)
+			p.PopContext()
+			p.PopContext()
 		}
 		t := p.CurrentToken
 		*recs = append(*recs, c16Rec{'e', ref.OffsetOf(src, t.Start.Line, t.Start.Column), p.IsInFunction(), p.CurrentContext(), t.Literal})
@@ -104,6 +116,9 @@ func c16Nest(src string, paths map[int]string, m Mode) (kind, detail string, inv
 // instead of next() (plugins that handle blocks do this); the context answers inside must be the same.
 var c16Direct bool
 
+// c16PushPop: the interceptors use the public PushContext / PopContext themselves, balanced, before asking.
+var c16PushPop bool
+
 func c16NestC(src string, paths map[int]string, m Mode) (kind, detail, class string, invocations int, stacks []string) {
 	kind, detail, class, invocations, stacks = c16NestSub(src, paths, m, false)
 	if kind == "" {
@@ -112,6 +127,14 @@ func c16NestC(src string, paths map[int]string, m Mode) (kind, detail, class str
 		c16Direct = false
 		if k2 != "" {
 			return "direct-block-" + k2, "with a statement interceptor that calls ParseBlockStatement itself on '{': " + d2, c2, invocations, stacks
+		}
+	}
+	if kind == "" {
+		c16PushPop = true
+		k2, d2, c2, _, _ := c16NestSub(src, paths, m, false)
+		c16PushPop = false
+		if k2 != "" {
+			return "plugin-context-" + k2, "with interceptors that push and pop a function context themselves (balanced) before asking: " + d2, c2, invocations, stacks
 		}
 	}
 	if kind == "" {
